@@ -276,8 +276,10 @@ Definition arrderef_node (pos : tpos) (t : ty) : ty * list diag :=
   | _ => (TAny, [mkdiag pos (DFilterRecv t)])
   end.
 
-(* checkIndexAccess; [ti] = type of the index, [t] = type of the operand *)
-Definition index_node (operand index : expr) (ti t : ty) : ty * list diag :=
+(* checkIndexAccess; [ti] = type of the index, [t] = type of the operand.
+   [fold_lit]: true = the repaired code, a string literal index is looked up lower-cased
+   (repo_patches/case/01-fix-index-literal-case.patch); false = the code before the repair. *)
+Definition index_node_gen (fold_lit : bool) (operand index : expr) (ti t : ty) : ty * list diag :=
   match t with
   | TAny => (TAny, [])
   | TArr el _ =>
@@ -291,7 +293,7 @@ Definition index_node (operand index : expr) (ti t : ty) : ty * list diag :=
       | TStr =>
           match index with
           | EStr _ s =>
-              match lookup s ps with
+              match lookup (if fold_lit then lower s else s) ps with
               | Some pt => (pt, [])
               | None =>
                   match m with
@@ -305,6 +307,8 @@ Definition index_node (operand index : expr) (ti t : ty) : ty * list diag :=
       end
   | _ => (TAny, [mkdiag (etok operand) (DIndexOperand t)])
   end.
+Definition index_node := index_node_gen true.
+Definition index_node_old := index_node_gen false.
 
 (* checkNotOp *)
 Definition not_node (p : tpos) (t : ty) : ty * list diag :=
